@@ -32,6 +32,29 @@ def rnd_F(g, n, style):
     return g.mat(n, n)
 
 
+def near_duplicates(g, means, Ps):
+    """now and then make a component an exact or nearly exact copy of its predecessor (catches 'reuse the previous
+    component's result when the input looks the same' shortcuts)"""
+    r = g.r
+    if len(means) < 2 or r.random() > 0.3:
+        return "none"
+    i = r.randrange(1, len(means))
+    kind = r.choice(["equal", "equal-cov", "tiny-diff", "equal-mean", "equal-mean", "approx-equal-mean"])
+    if kind == "equal-mean":            # same mean, different covariance
+        means[i] = list(means[i - 1])
+        return kind
+    if kind == "approx-equal-mean":
+        means[i] = [v * (1 + 2.0 ** -30) for v in means[i - 1]]
+        return kind
+    Ps[i] = [list(row) for row in Ps[i - 1]]
+    if kind == "equal":
+        means[i] = list(means[i - 1])
+    elif kind == "tiny-diff":
+        means[i] = [v * (1 + 2.0 ** -30) for v in means[i - 1]]
+        Ps[i] = [[v * (1 + 2.0 ** -28) for v in row] for row in Ps[i]]
+    return kind
+
+
 def round_mat(M):
     """exact rational matrix -> nearest doubles (as floats)"""
     return [[float(x) for x in row] for row in M]
@@ -53,6 +76,7 @@ def ukfp_case(g, tier):
     Ps = [U.scale_cov(U.rnd_psd(g, n, pstyle), d) for _ in range(k)]
     means = [[v * d[i] for i, v in enumerate(g.vec(n))] for _ in range(k)]
     u = [v * d[i] for i, v in enumerate(g.vec(n))] if exo else [0.0] * n
+    dup = near_duplicates(g, means, Ps)
     outw = [r.uniform(0.01, 1.0) for _ in range(k)]
     if variant == 0:
         Q = U.scale_cov(U.rnd_psd(g, n, r.choice(["full", "full", "dyadic", "singular", "zero"])), d)
@@ -64,7 +88,7 @@ def ukfp_case(g, tier):
         Gf, Qf = U.fmat(G), U.fmat(Q)
         Qeff = round_mat(vlib.mmul(vlib.mmul(Gf, Qf), vlib.mT(Gf)))
     meta = {"op": "ukfp", "variant": variant, "n": n, "nz": nz, "k": k, "alpha": alpha, "beta": beta, "kappa": kappa, "skip": skip, "exo": exo,
-            "F": F, "G": G, "Q": Q, "Qeff": Qeff, "u": u, "means": means, "Ps": Ps, "outw": outw, "pstyle": pstyle, "scale": skind}
+            "F": F, "G": G, "Q": Q, "Qeff": Qeff, "u": u, "means": means, "Ps": Ps, "outw": outw, "pstyle": pstyle, "scale": skind, "dup": dup}
     return meta
 
 
@@ -112,6 +136,7 @@ def ukfc_case(g, tier):
     sc = 2.0 ** {"unit": 0, "tiny": -27, "small": -13, "large": 10, "huge": 23}[skind]
     Ps = [U.scale_cov(U.rnd_psd(g, n, pstyle), [sc] * n) for _ in range(k)]
     means = [[v * sc for v in g.vec(n)] for _ in range(k)]
+    dup = near_duplicates(g, means, Ps)
     hstyle = r.choice(["general", "general", "general", "dyadic", "zerorow", "rank1", "zero"])
     if hstyle == "dyadic":
         H = [[g.dyadic(-2, 2, 3) for _ in range(n)] for _ in range(m)]
@@ -141,7 +166,7 @@ def ukfc_case(g, tier):
         Reff = round_mat(vlib.mmul(vlib.mmul(Df, Rf), vlib.mT(Df)))
     alpha, beta, kappa = U.rnd_params(g, n + nz)
     meta = {"op": "ukfc", "variant": variant, "n": n, "nz": nz, "m": m, "k": k, "alpha": alpha, "beta": beta, "kappa": kappa, "fail": fail, "online": online,
-            "H": H, "D": D, "R": R, "Reff": Reff, "y": y, "means": means, "Ps": Ps, "outw": outw, "pstyle": pstyle, "hstyle": hstyle, "scale": skind}
+            "H": H, "D": D, "R": R, "Reff": Reff, "y": y, "means": means, "Ps": Ps, "outw": outw, "pstyle": pstyle, "hstyle": hstyle, "scale": skind, "dup": dup}
     return meta
 
 
@@ -184,6 +209,11 @@ def derive_step(meta, g):
     n, k = meta["n"], r.choice([1, 2, 3, 4])
     st["k"] = k
     st["outw"] = [r.uniform(0.01, 1.0) for _ in range(k)]
+    st["alias"] = r.random() < 0.2          # the same mixture passed as input and output
+    st["cskip"] = 0
+    if meta["op"] == "ukfc" and r.random() < 0.25:
+        st["cskip"] = 2 if meta.get("cskipping") else 1     # GaussianCorrection::skip on / off again
+    st["cskipping"] = (st["cskip"] == 1) or (bool(meta.get("cskipping")) and st["cskip"] != 2)
     if meta["op"] == "ukfp":
         _, d = U.rnd_scales(g, n)
         st["Ps"] = [U.scale_cov(U.rnd_psd(g, n, r.choice(U.PSD_STYLES)), d) for _ in range(k)]
@@ -266,9 +296,9 @@ def seq_line(steps):
             h += U.cm_tokens(m0["G"]) + U.cm_tokens(m0["Q"]) + U.cm_tokens(m0["Qeff"])
         else:
             h += U.cm_tokens(m0["Q"])
-        h += [hexd(x) for x in m0["u"]] + [str(len(steps))]
+        h += [hexd(x) for x in m0["u"]] + [str(len(steps)), str(m0.get("hand", 0))]
         for st in steps:
-            h += ["1" if st["skip"] else "0", str(st["k"])]
+            h += ["1" if st["skip"] else "0", str(st["k"]), "1" if st.get("alias") else "0"]
             if st.get("mchg"):
                 h += ["1"] + U.cm_tokens(st["F"])
                 if v == 1:
@@ -285,9 +315,9 @@ def seq_line(steps):
             h += U.cm_tokens(m0["D"]) + U.cm_tokens(m0["R"]) + U.cm_tokens(m0["Reff"])
         else:
             h += U.cm_tokens(m0["R"])
-        h += [str(len(steps))]
+        h += [str(len(steps)), str(m0.get("hand", 0))]
         for st in steps:
-            h += [str(st["fail"]), str(st["k"])]
+            h += [str(st["fail"]), str(st["k"]), "1" if st.get("alias") else "0", str(st.get("cskip", 0))]
             if st.get("chg"):
                 h += [str(int(st["chg"]))] + U.cm_tokens(st["H"])
                 if v == 1:
@@ -535,9 +565,17 @@ def check_ukfc(meta, h, stats, notes):
         X = None
     if t[p] != "in-same":
         notes["input_modified"] = notes.get("input_modified", 0) + 1
+    if "lik2-differs" in t[p:]:
+        return [("prop", "likelihood-query-not-idempotent", "UKFCorrection::getLikelihood() asked twice after the same correction gives two different answers")], None, None
     if uw != kw:
         notes["correct_weights_differ_ukf_vs_kf"] = notes.get("correct_weights_differ_ukf_vs_kf", 0) + 1
     o = {"um": um, "uc": uc, "km": km, "kc": kc, "ulik": ulik, "klik": klik, "X": X}
+    if meta.get("cskipping"):
+        # both corrections are being skipped (GaussianCorrection::skip, a flag a moved object keeps): both hand the
+        # predicted belief over, hence coincide exactly
+        if um != km or uc != kc:
+            return [("prop", "skipped-correction-differs", "correction skipped on both filters (skip(true)%s): UKFCorrection and KFCorrection return different beliefs" % (", UKF object handed over by move construction" if meta.get("hand_obj") else ""))], None, None
+        return [], None, None
     if meta["fail"]:
         # not part of the property: counted only
         pm = [[Fraction(v) for v in meta["means"][i]] for i in range(k)]
@@ -686,13 +724,25 @@ def run(ctx):
     binary = vlib.build_harness("h_ut")
     stats, hist, notes = {}, {}, {}
     g = ctx.gen("ukf")
-    NP, NC = ctx.n(90, 600), ctx.n(110, 800)
+    NP, NC = ctx.n(70, 600), ctx.n(90, 800)
     objects = []
     for mk in [ukfp_case] * NP + [ukfc_case] * NC:
         st = [mk(g, ctx.tier)]
         if g.r.random() < (0.85 if st[0].get("online") else 0.5):
             for _ in range(g.r.choice([1, 2, 3])):
                 st.append(derive_step(st[-1], g))
+        if len(st) > 1 or g.r.random() < 0.3:
+            # object hand-over (move construction before / after the first step; move assignment for predictions)
+            st[0]["hand"] = g.r.choice([0, 1, 1, 2, 2] + ([3] if st[0]["op"] == "ukfp" else []))
+            st[0]["alias"] = g.r.random() < 0.2
+            if st[0]["op"] == "ukfc" and g.r.random() < 0.15:
+                st[0]["cskip"] = 1
+                st[0]["cskipping"] = True
+                for i_ in range(1, len(st)):      # the derived steps were drawn before: recompute the skip state
+                    prev_ = st[i_ - 1]
+                    if st[i_].get("cskip") == 1 and prev_.get("cskipping"):
+                        st[i_]["cskip"] = 2
+                    st[i_]["cskipping"] = (st[i_].get("cskip") == 1) or (bool(prev_.get("cskipping")) and st[i_].get("cskip") != 2)
         objects.append(st)
     import json
     ncorpus = 0
@@ -708,7 +758,8 @@ def run(ctx):
         objects = [rm["steps"] if isinstance(rm, dict) and "steps" in rm else [rm]]
     ohl = []
     for st in objects:
-        if len(st) == 1:
+        plain = len(st) == 1 and not st[0].get("hand") and not st[0].get("alias") and not st[0].get("cskip")
+        if plain:
             ohl.append((ukfp_lines(st[0]) if st[0]["op"] == "ukfp" else ukfc_lines(st[0]))[0])
         else:
             ohl.append(seq_line(st))
@@ -716,16 +767,26 @@ def run(ctx):
     # flatten to single steps
     metas, hl, hout, snaps = [], [], [], []
     for st, line, h in zip(objects, ohl, ohout):
-        outs = split_seq(h, len(st)) if len(st) > 1 else [h]
+        outs = split_seq(h, len(st)) if line.startswith("ukfps") or line.startswith("ukfcs") else [h]
         sn = U.snap({"steps": st})
         for si, (m_, ho) in enumerate(zip(st, outs)):
             m_ = dict(m_)
             m_["step"] = si
+            m_["hand_obj"] = st[0].get("hand", 0)
             metas.append(m_)
             hl.append(line)
             hout.append(ho)
             snaps.append(sn)
         hist["steps-per-object=%d" % len(st)] = hist.get("steps-per-object=%d" % len(st), 0) + 1
+        if st[0].get("hand"):
+            kk = "hand-over:%s:%s" % ("prediction" if st[0]["op"] == "ukfp" else "correction", {1: "move-constructed before first step", 2: "move-constructed between steps", 3: "move-assigned between steps"}[st[0]["hand"]])
+            hist[kk] = hist.get(kk, 0) + 1
+        for m_ in st:
+            if m_.get("alias"):
+                kk = "aliasing:%s(b, b)" % ("predict" if m_["op"] == "ukfp" else "correct")
+                hist[kk] = hist.get(kk, 0) + 1
+            if m_.get("cskipping"):
+                hist["correction-skip-flag-set"] = hist.get("correction-skip-flag-set", 0) + 1
         nchg = sum(1 for m_ in st if m_.get("chg") == 1)
         if nchg:
             hist["online-weights:noise-dimension-changed-between-steps"] = hist.get("online-weights:noise-dimension-changed-between-steps", 0) + nchg
@@ -751,6 +812,8 @@ def run(ctx):
         hist["components=%d" % meta["k"]] = hist.get("components=%d" % meta["k"], 0) + 1
         hist["P=" + meta["pstyle"]] = hist.get("P=" + meta["pstyle"], 0) + 1
         hist["scale=" + meta.get("scale", "?")] = hist.get("scale=" + meta.get("scale", "?"), 0) + 1
+        if meta.get("dup", "none") != "none" and meta.get("step", 0) == 0:
+            hist["near-duplicate components:" + meta["dup"]] = hist.get("near-duplicate components:" + meta["dup"], 0) + 1
         first.append((probs, o, Bs))
         if o is not None and Bs is not None:
             lines = ukfp_lines(meta, Bs) if meta["op"] == "ukfp" else ukfc_lines(meta, Bs)
